@@ -95,7 +95,54 @@ func genC11(g *gen) {
 			}
 		}
 		g.emit("footer %s %s", hx(cov), hx(tr[:g.r.Intn(8)]))
+		// structured wrong trailers: the special values of a 64-bit comparison
+		for _, t := range specialTrailers(tr) {
+			g.emit("footer %s %s", hx(cov), hx(t))
+			// … also together with an altered data byte
+			e := append([]byte{}, cov...)
+			e[g.r.Intn(len(e))] ^= byte(1 + g.r.Intn(255))
+			g.emit("footer %s %s", hx(e), hx(t))
+		}
 	}
+	// DUMP payloads with structured wrong checksums / versions
+	for i := 0; i < g.pick(6, 60); i++ {
+		t := byte(g.r.Intn(16))
+		val := g.bytes(g.r.Intn(12))
+		d := rdb.VerifCreateValueDump(t, val)
+		body, tr := d[:len(d)-8], d[len(d)-8:]
+		for _, st := range specialTrailers(tr) {
+			g.emit("verify %s", hx(append(append([]byte{}, body...), st...)))
+		}
+	}
+}
+
+// specialTrailers: wrong 8-byte checksums that a sloppy comparison might accept:
+// zero ("checksum disabled"), all ones, off by one, halves zeroed or swapped, byte order reversed.
+func specialTrailers(tr []byte) [][]byte {
+	var v uint64
+	for k := 0; k < 8; k++ {
+		v |= uint64(tr[k]) << (8 * uint(k))
+	}
+	le := func(x uint64) []byte {
+		b := make([]byte, 8)
+		for k := 0; k < 8; k++ {
+			b[k] = byte(x >> (8 * uint(k)))
+		}
+		return b
+	}
+	rev := make([]byte, 8)
+	for k := 0; k < 8; k++ {
+		rev[k] = tr[7-k]
+	}
+	cands := [][]byte{le(0), le(^uint64(0)), le(v + 1), le(v - 1), le(v & 0xffffffff), le(v &^ 0xffffffff),
+		le(v>>32 | v<<32), rev, le(^v), le(v ^ (1 << 63)), le(1)}
+	var out [][]byte
+	for _, c := range cands {
+		if !bytes.Equal(c, tr) {
+			out = append(out, c)
+		}
+	}
+	return out
 }
 
 func errClass(err error) string {
